@@ -1,7 +1,7 @@
 (* Properties/C51.v — Commit-graph files interoperate with git.
    Statements only; proofs in Proofs/C51.v. *)
 From Coq Require Import List NArith ZArith Bool.
-From GoGit Require Import Base.Out Model.CommitGraph Proofs.C51.
+From GoGit Require Import Base.Out Model.CommitGraph Proofs.C51 Proofs.C51Reader.
 Import ListNotations.
 Local Open Scope N_scope.
 
@@ -19,9 +19,23 @@ Theorem C51_table_consistent : forall es, wf_entries es ->
   let k := N.of_nat (List.length tbl) in
   exists payloads,
     encode es = sig_CGPH ++ [1; 1; k mod 256; 0] ++ chunk_headers tbl (8 + (k + 1) * 12) ++ List.concat payloads
-    /\ Forall2 payload_ok payloads tbl.
+    /\ Forall2 payload_ok payloads tbl
+    /\ nth 0 payloads [] = flat_map be32 (fanout_of sorted).
 Proof. exact encode_layout. Qed.
 Print Assumptions C51_table_consistent.
+
+(* go-git's own reader (and, with it, any reader deriving chunk sizes from consecutive offsets as
+   git does) accepts every file the encoder writes: header, size, table of contents (known, distinct
+   chunk ids, monotone offsets), chunk sizes against the fanout total, fanout — and sees the right
+   number of commits, the right fanout and the generation-v2 flag.  For ALL well-formed inputs
+   (distinct 20-byte ids with byte values < 256, < 2^31 commits, file shorter than 2^62 bytes). *)
+Theorem C51_reader_accepts : forall es trailer, wf_file es -> List.length trailer = 20%nat ->
+  exists fi, open_file (encode es ++ trailer) = Ok fi /\
+    ncommits fi = N.of_nat (List.length (sorted_of es)) /\
+    f_gen2 fi = has_gen2 es /\
+    f_fanout fi = fanout_of (sorted_of es).
+Proof. exact reader_accepts. Qed.
+Print Assumptions C51_reader_accepts.
 
 (* the code as it was before the fix: the overflow chunk was sized with `> MaxUint32`, so an
    offset in [2^31, 2^32) wrote an overflow entry that no chunk declared *)
